@@ -356,10 +356,7 @@ func (p *queryPlan) processClause(ctx context.Context, cls *semantic.GraphClause
 			}
 		})
 		// Data is new.
-		stmLimit := int64(0)
-		if len(p.stm.GraphPatternClauses()) == 1 && len(p.stm.GroupBy()) == 0 && len(p.stm.HavingExpression()) == 0 {
-			stmLimit = p.stm.Limit()
-		}
+		stmLimit := p.pushDownLimit(cls)
 		tbl, err := simpleFetch(ctx, p.grfs, cls, lo, stmLimit, p.chanSize, p.tracer)
 		if err != nil {
 			return true, err
@@ -385,6 +382,28 @@ func (p *queryPlan) processClause(ctx context.Context, cls *semantic.GraphClause
 		}
 	})
 	return false, p.specifyClauseWithTable(ctx, cls, lo)
+}
+
+// pushDownLimit returns the statement limit if it can be pushed down to the
+// driver for the given clause, 0 otherwise. That is only possible if the rows
+// the driver returns are exactly the rows of the result, in any order: a single
+// clause, no grouping, no HAVING and no ORDER BY, and a clause that turns every
+// triple received into a row (no predicate or object ID to match, no anchor,
+// TYPE or ID extraction from the object that may not apply, no repeated binding).
+func (p *queryPlan) pushDownLimit(cls *semantic.GraphClause) int64 {
+	if len(p.stm.GraphPatternClauses()) != 1 || len(p.stm.GroupBy()) != 0 || len(p.stm.HavingExpression()) != 0 || len(p.stm.OrderByConfig()) != 0 {
+		return 0
+	}
+	if cls.PID != "" || cls.OID != "" || cls.PAnchorBinding != "" || cls.PAnchorAlias != "" ||
+		cls.OAnchorBinding != "" || cls.OAnchorAlias != "" || cls.OTypeAlias != "" || cls.OIDAlias != "" {
+		return 0
+	}
+	for _, n := range cls.BindingsMap() {
+		if n > 1 {
+			return 0
+		}
+	}
+	return p.stm.Limit()
 }
 
 // getBoundValueForComponent return the unique bound value if available on
@@ -467,10 +486,7 @@ func (p *queryPlan) addSpecifiedData(ctx context.Context, r table.Row, cls *sema
 		}
 	})
 
-	stmLimit := int64(0)
-	if len(p.stm.GraphPatternClauses()) == 1 && len(p.stm.GroupBy()) == 0 && len(p.stm.HavingExpression()) == 0 {
-		stmLimit = p.stm.Limit()
-	}
+	stmLimit := p.pushDownLimit(cls)
 	tbl, err := simpleFetch(ctx, p.grfs, cls, lo, stmLimit, p.chanSize, p.tracer)
 	if err != nil {
 		return err
